@@ -216,6 +216,39 @@ func genC16() {
 		}
 	}
 	facts["c16_calls"] = calls
+	// process-global state reached from the property's code: the package-level variables of syncer/replica.go and the
+	// process-wide options syncer/channel.go reads on behalf of a reader / writer (an option that is not DRAWN by the
+	// harness is a dimension it cannot judge: seeded round 8, channel.verifyCrc)
+	{
+		var globals []string
+		for _, d := range f.Decls {
+			if gd, ok := d.(*ast.GenDecl); ok && gd.Tok == token.VAR {
+				for _, sp := range gd.Specs {
+					if vs, ok := sp.(*ast.ValueSpec); ok {
+						for _, n := range vs.Names {
+							globals = append(globals, "replica.go var "+n.Name)
+						}
+					}
+				}
+			}
+		}
+		fsetC, fc := parseFile("syncer/channel.go")
+		seen := map[string]bool{}
+		ast.Inspect(fc, func(n ast.Node) bool {
+			if se, ok := n.(*ast.SelectorExpr); ok {
+				txt := c12Render(fsetC, se)
+				if strings.HasPrefix(txt, "config.GetSyncerConfig().") && !seen[txt] {
+					if _, inner := se.X.(*ast.CallExpr); !inner { // the full chain, not its prefix
+						seen[txt] = true
+						globals = append(globals, "channel.go reads "+txt)
+					}
+				}
+			}
+			return true
+		})
+		sort.Strings(globals)
+		facts["c16_globals"] = globals
+	}
 	facts["c16_gap_threshold"] = gap
 
 	// cmd: what Sync does with ServiceReplica's error, and how runCluster reacts to a stopped
